@@ -7,6 +7,7 @@ import SideVerif.Drive.C18
 import SideVerif.Drive.C13
 import SideVerif.Drive.C02
 import SideVerif.Drive.C03
+import SideVerif.Drive.C05
 import SideVerif.Drive.C06
 import SideVerif.Drive.C08
 import SideVerif.Drive.C17
@@ -27,6 +28,7 @@ def dispatch (op : String) (j : Json) : Except String Json :=
   | "c13" => c13 j
   | "c02" => c02 j
   | "c03" => c03 j
+  | "c05" => c05 j
   | "c06" => c06 j
   | "c08" => c08 j
   | "c17" => c17 j
